@@ -80,6 +80,17 @@ func c42(c *Ctx) {
 		reset := one(c, "nonce reset", storesToField(f, fNonce))
 		c.ValueIs(reset, reset.Val, "nonce-reset-to-empty", ConstStr(""))
 		c.Dominates(reset, send, "reset-before-send")
+		// the reset is not conditional on the type having subscriptions: every iteration over the
+		// per-type states passes through it (a type subscribed later on this stream must not reuse the old stream's nonce)
+		nx := one(c, "range over resourceTypeState", instrsWhere(f, func(in ssa.Instruction) bool { _, ok := in.(*ssa.Next); return ok }))
+		self := func(v ssa.Value) bool { return v == nx.(ssa.Value) }
+		q0 := pathQuery{Fn: f, Starts: []ssa.Instruction{nx}, Barrier: func(in ssa.Instruction) bool { return in == ssa.Instruction(reset) },
+			Target: func(in ssa.Instruction) bool { return in == nx || isReturn(in) },
+			EdgeBlock: func(from, to *ssa.BasicBlock) bool {
+				_, ok := hasFact(edgeFacts(from, to), Truth(ExtractOf(self, 0), false))
+				return ok
+			}}
+		c.MustPass("every-type-nonce-reset", q0, nx)
 		c.ArgIs(send, 4, "resend-with-stored-version", FieldLoad(fVer))
 		c.ArgIs(send, 5, "resend-with-reset-nonce", FieldLoad(fNonce))
 		c.ArgIs(send, 2, "resend-with-subscribed-names", CallWith(Callee(xdsc, "resourceNames"), 0, FieldLoad(fSubs)))
